@@ -379,8 +379,25 @@ def record(problem, timeout=120, inject=None):
         with patched(rec, spec, inject):
             try:
                 with alarm(timeout):
-                    res = minimize(ufun, problem["x0"], args=problem.get("args", ()), bounds=problem.get("bounds"),
-                                   constraints=cons, callback=callback, options=options, **(problem.get("constants") or {}))
+                    # the same problem handed over in the different forms the interface accepts
+                    api = problem.get("api") or {}
+                    x0_arg = problem["x0"]
+                    if api.get("x0") == "tuple":
+                        x0_arg = tuple(x0_arg)
+                    elif api.get("x0") == "array":
+                        x0_arg = np.array(x0_arg, float)
+                    elif api.get("x0") == "column":
+                        x0_arg = np.array(x0_arg, float).reshape(-1, 1)
+                    cons_arg = cons
+                    if api.get("cons") == "tuple":
+                        cons_arg = tuple(cons)
+                    elif api.get("cons") == "single" and len(cons) == 1:
+                        cons_arg = cons[0]
+                    opts_arg = dict(options)
+                    if api.get("maxfev_float") and "maxfev" in opts_arg:
+                        opts_arg["maxfev"] = float(opts_arg["maxfev"])
+                    res = minimize(ufun, x0_arg, args=problem.get("args", ()), bounds=problem.get("bounds"),
+                                   constraints=cons_arg, callback=callback, options=opts_arg, **(problem.get("constants") or {}))
                 out["res"] = res
                 result_event(rec, res)
             except RunTimeout:
